@@ -120,10 +120,17 @@ def p_tpow(rng, metas, objs):
 
 
 def p_angle(rng, metas, objs):
+    if rng.random() < 0.04:
+        return {"angle": rng.choice(EXTREME)}
     return {"angle": rng.choice([0.0, 0.5, -1.25, 3.141592653589793, 1.5707963267948966, 2.0])}
 
 
+EXTREME = [float("inf"), 1e154, 1e200, 1e-200, float("nan"), -0.0, 1e-9]
+
+
 def p_radius(rng, metas, objs):
+    if rng.random() < 0.06:   # what a caller's own arithmetic may hand over: overflowed, underflowed, undefined
+        return {"r": rng.choice(EXTREME)}
     return {"r": rng.choice([1, 2, 0.5, 3, 1, 2, 0, -1])}
 
 
@@ -627,6 +634,51 @@ Op("u_matmul_adj_b", [SQUARE, SQUARE], lambda a, p: U.matmul(a[0].array, a[1].ar
 Op("polytope_item_kinds", [POLYTOPE], lambda a, p: [a[0][i] for i in ((Ellipsis, 0, slice(None)), (Ellipsis, slice(0, 2), slice(None)),
                                                    (Ellipsis, slice(0, 3), slice(None)), 0)],
    api="PolytopeTensor.__getitem__")
+
+
+# augmented assignment. The library defines no in-place operators, so `y = x.copy(); y *= 2` REBINDS y and leaves x --
+# with which y shares its array, copy() is shallow -- alone; the same on an epsilon/delta object leaves the cached
+# array alone. A version that adds in-place operators has to keep that promise.
+def _aug(x, how, s):
+    if how == "imul":
+        x *= s
+    elif how == "idiv":
+        x /= s
+    elif how == "iadd":
+        x += s
+    elif how == "isub":
+        x -= s
+    elif how == "ipow":
+        x **= 1
+    elif how == "ineg":
+        x = -x
+    return x
+
+
+def p_aug(rng, metas, objs):
+    return {"how": rng.choice(["imul", "imul", "idiv", "iadd", "isub", "ipow"]), "s": rng.choice([2, -1, 3, -2])}
+
+
+def p_aug_eps(rng, metas, objs):
+    d = p_aug(rng, metas, objs)
+    d.update(p_eps(rng, metas, objs))
+    return d
+
+
+def p_aug_delta(rng, metas, objs):
+    d = p_aug(rng, metas, objs)
+    d.update(p_delta(rng, metas, objs))
+    return d
+
+
+Op("aug_copy", [ANY], lambda a, p: _aug(a[0].copy(), p["how"], p["s"]), p_aug, weight=2,
+   api=("Tensor.__mul__", "Tensor.__truediv__", "Tensor.__add__", "Tensor.__sub__"))
+Op("aug_tt", [ANY, ANY], lambda a, p: _aug(a[0].copy(), "iadd" if p["how"] in ("iadd", "imul") else "isub", a[1]), p_aug,
+   api=("Tensor.__add__", "Tensor.__sub__"))
+Op("aug_eps", [], lambda a, p: _aug(LeviCivitaTensor(p["n"], p["cov"]), p["how"], p["s"]), p_aug_eps,
+   api="LeviCivitaTensor")
+Op("aug_delta", [], lambda a, p: _aug(KroneckerDelta(p["n"], p["p"]), p["how"], p["s"]), p_aug_delta,
+   api="KroneckerDelta")
 
 
 def _coll_class(x):
